@@ -6,6 +6,7 @@ import re
 import subprocess
 
 from common import standard_prologue, run_hx, run_drv, enc, dec, OKANE, VERIF
+from c15 import num_cell
 from imp1517 import (sx_parse, sx_str, sx_find, opt, docs_yaml, doc_sx, rule_sx, entry_sx, conv_sx, BASE_DOC, ENCODINGS)
 
 CLAIM = {
@@ -29,7 +30,17 @@ CLAIM = {
              "(always the case for CSV). The model is tied to cli/src/import/{config,extract,single_entry}.rs by three "
              "streams: YAML documents x path through the real load_from_yaml + select; rule lists x records through the real "
              "Extractor (the harness hands the model the regex verdicts; all field orders are enumerated on the model side and the "
-             "real code is run on freshly built hash maps several times); CSV files through the real `okane import` binary."),
+             "real code is run on freshly built hash maps several times); CSV files through the real `okane import` binary. "
+             "CSV IMPORTER WITH THE REAL CELL DECODER (last section of Props/C17.lean, lemmas in Lemmas/ImportCsvCellsUse.lean): "
+             "C17_csv_row / C17_csv_import instantiate the account / pending / payee theorems for the CSV importer model run with the model "
+             "of okane's own number-cell decoder (Cells.cellEnv): for every row the importer accepts, the record the rules look at is "
+             "(payee, category, secondary commodity) as the field map extracts them, the transaction's counter-account is the account of the "
+             "last matching rule that has one, it stays cleared iff some matching account-assigning rule is not pending, payee and code are "
+             "the fold's, and in the tree the counter-posting (first for a negative amount — the sign of the number WRITTEN in the amount cell "
+             "under the importer's sign rule — last otherwise) goes to that account or Income:/Expenses:Unknown and carries `!` unless "
+             "cleared; csvRow_rules states the same for every decoder environment. The end-to-end stream now also runs that model "
+             "(`drv c17 csv`: numbers and templates decoded by the model from the cell TEXT, e.g. `-$1,234.50`) on the cells of every "
+             "statement and compares its trees with the real importer's and with what the `okane import` binary printed."),
     "note": ("regex matching, YAML decoding, `str::contains`, `PathBufExt::from_slash` (identity on Unix) and encoding label "
              "lookup are modelled / parameters, not verified; Camt053's own matcher is exercised by C18, here its shape "
              "(payee field without original payee, coded fields) is exercised through a harness matcher of the same shape."),
@@ -43,6 +54,8 @@ THEOREMS = [
     "Okane.Import.C17_payee_code", "Okane.Import.C17_or_first", "Okane.Import.C17_and_all", "Okane.Import.C17_and_captures",
     "Okane.Import.C17_unknown_account", "Okane.Import.C17_pending_mark",
     "Okane.Import.C17_and_order_false", "Okane.Import.C17_and_order_partial",
+    # the CSV importer with okane's own cell decoder (Lemmas/ImportCsvCellsUse.lean, last section of Props/C17.lean)
+    "Okane.Import.csvRow_rules", "Okane.Import.C17_csv_row", "Okane.Import.C17_csv_import",
 ]
 
 # ------------------------------------------------------------------------------------------------
@@ -515,6 +528,44 @@ SAFE_CATS = [c for c in CATEGORIES if c]
 HEADER_RE = re.compile(r"^(\d{4}/\d\d/\d\d) \* (?:\(([^)]*)\) )?(.*)$")
 
 
+def csv_model_rows(chk, docs, src, text, replay):
+    """`hx c15 csv` (real select + real importer + the cells) then `drv c17 csv` (importer model, number cells and templates decoded
+    from their text): the trees must agree; returns per transaction (payee, code, counter account, pending mark) from the model."""
+    line = "%s %s %s" % (enc(src), enc(docs_yaml(docs)), enc(text))
+    a = run_hx(["c15", "csv"], [line])[0]
+    if not a.startswith("(ok "):
+        chk.count("e2e:model:config-refused")
+        return None
+    t = sx_parse(a)
+    cells = sx_find(t, "cells")[1]
+    if cells[0] != "ok":
+        return None
+    case = "(case %s %s %s %s %s)" % (sx_str(sx_find(t, "cfg")[1]), sx_str(sx_find(t, "pats")), sx_str(sx_find(t, "table")),
+                                      sx_str(["cells"] + cells[1:]), sx_str(sx_find(t, "dates")))
+    b = run_drv(["c17", "csv"], [case])[0]
+    if b.startswith("(table-incomplete"):
+        chk.count("e2e:model:regex-table-incomplete")
+        return None
+    I = sx_find(t, "import")[1]
+    mi = sx_find(sx_parse(b), "import")[1] if b.startswith("(ok ") else None
+    chk.count("e2e:model:" + ("agrees" if mi == I else "DISAGREES"))
+    if mi != I:
+        chk.disagreements += 1
+        chk.violation("CSV importer model (cells decoded from their text) and the real CSV importer disagree",
+                      dict(replay, impl_import=sx_str(I)[:3000], model_import=sx_str(mi)[:3000] if mi else b[:500],
+                           rerun_model="echo '%s' | /verif/work/target/debug/hx c15 csv" % line), no_failing_input=True, tag="corr")
+        return None
+    if mi[0] != "ok":
+        return None
+    rows = []
+    for tr in mi[1:]:
+        posts = tr[6]
+        src_first = dec(posts[0][1]) == "Assets:Bank"
+        counter = posts[-1] if src_first else posts[0]
+        rows.append((dec(tr[5]), dec(tr[4][0]) if tr[4] else None, dec(counter[1]), "! " if counter[2] == "p" else ""))
+    return rows
+
+
 def run_binary(chk, nfiles, rows):
     d = os.path.join(chk.dir, "e2e")
     os.makedirs(d, exist_ok=True)
@@ -541,11 +592,13 @@ def run_binary(chk, nfiles, rows):
                 payee = chk.rng.choice([payee.upper(), payee.lower(), payee.swapcase()])
             if chk.rng.random() < 0.3 and cat.isascii():
                 cat = chk.rng.choice([cat.upper(), cat.lower(), cat.swapcase()])
-            amount = chk.rng.choice([1, -1]) * chk.rng.randint(1, 99999)
+            # the amount cell as statements write it: currency sign / commodity code before or after the number, thousands separators,
+            # blanks, up to two minus signs (`-$1,234.50`, `$-5.00`, `--100.00`); its value decides Income:/Expenses:Unknown
+            units = chk.rng.randint(1, 99999999 if chk.rng.random() < 0.3 else 99999)
+            cell, k, _ = num_cell(chk.rng, units, 2, chk.rng.random() < 0.6)
+            amount = -units if k % 2 else units
             recs.append((payee, cat, amount))
-            csv_lines.append("2024-01-%02d,%s,%s,%d.%02d" % (ri % 28 + 1, payee, cat, amount // 100 if amount > 0 else -((-amount) // 100),
-                                                          abs(amount) % 100) if False else
-                             "2024-01-%02d,%s,%s,%s" % (ri % 28 + 1, payee, cat, ("-" if amount < 0 else "") + "%d.%02d" % (abs(amount) // 100, abs(amount) % 100)))
+            csv_lines.append("2024-01-%02d,%s,%s,%s" % (ri % 28 + 1, payee, cat, '"%s"' % cell if "," in cell else cell))
         cfg = os.path.join(d, "config%d.yml" % fi)
         src = os.path.join(d, "stmt%d.csv" % fi)
         open(cfg, "w").write(docs_yaml(docs))
@@ -562,6 +615,9 @@ def run_binary(chk, nfiles, rows):
             chk.oracle_failures += 1
             chk.violation("`okane import` printed %d transactions for %d records" % (len(blocks), len(recs)), dict(replay, stdout=p.stdout))
             continue
+        # the CSV importer MODEL on the cells of the statement (number cells decoded by the model from their text), against the real
+        # importer's trees and against what the binary printed
+        model_rows = csv_model_rows(chk, docs, src, "\n".join(csv_lines) + "\n", replay)
         for (payee, cat, amount), block in zip(recs, blocks):
             rec = {"payee": ("P", payee), "category": ("T", False, cat)}
             states = statement_eval(rec, rules)
@@ -587,6 +643,15 @@ def run_binary(chk, nfiles, rows):
                               dict(replay, record=[payee, cat, amount], printed=block,
                                    expected={"payee": want_payee, "code": st[1], "counter_account": want_acct, "pending_mark": want_mark}))
                 break
+            if model_rows is not None:
+                mrow = model_rows.pop(0) if model_rows else None
+                got = (m.group(3), m.group(2) or None, got_acct, got_mark)
+                if mrow != got:
+                    chk.disagreements += 1
+                    chk.violation("CSV importer model (cells decoded from their text) and the `okane import` binary disagree on payee / code / "
+                                  "counter account / pending mark", dict(replay, record=[payee, cat, amount], printed=block, model=mrow),
+                                  no_failing_input=True, tag="corr")
+                    break
 
 
 # ------------------------------------------------------------------------------------------------
